@@ -587,6 +587,13 @@ func c13ReqOne(c *fw.Ctx, cs c13ReqCase) {
 	ctx, cancel := context.WithTimeout(context.Background(), 5*time.Second)
 	defer cancel()
 	hdr := http.Header{}
+	if cs.Mode != "disabled" && len(cs.Headers)%2 == 1 {
+		// an earlier handshake of the same process, answered with an extension agreement: the
+		// request of this one does not depend on it
+		if prior := hsDial(ctx, "ws://example.com/earlier", websocket.DialOptions{CompressionMode: hsMode(cs.Mode)}, validScript("permessage-deflate; client_no_context_takeover"), nil); prior.conn != nil {
+			prior.conn.CloseNow()
+		}
+	}
 	want := map[string][]string{} // what the caller's (non-handshake) headers amount to, by the key the caller used
 	for _, h := range cs.Headers {
 		raw := strings.HasPrefix(h, "raw:")
